@@ -51,6 +51,10 @@ def run(tier):
     common.tlaps_proof(rep, PROP, "StreamLen", "Safety (Spec => [](BoundedReads /\\ NeverReadsAhead)), every record size T >= 5")
     for c in cases[:2] + cases[len(cases) // 2:len(cases) // 2 + 1]:
         rep.sample({"fn": c["fn"], "input": c["input"], "expect": c["expect"], "pin": c["pin"]})
+    # (growth) every declared length WITH its payload (the header sweep above stops at header + 3 bytes)
+    common.len_sweep(rep, binary, PROP)
+    # (growth) a record at the head of a buffer of 10 MiB - 1 .. 2^24 + 1 bytes: everything after it is the remainder
+    common.huge_buffers(rep, binary, PROP, fns=("parse_tls_raw_record", "parse_tls_encrypted", "parse_tls_plaintext", "parse_tls_record_header", "tls_parser"))
     return rep.finish("model_checking",
                       "cases = model records (7 content types x payload pool x trailing bytes x every prefix cut, lying "
                       "lengths, cap boundary 16639/16640/16641/65535) x 3 parsers; sweep = 8 (quick) / 256 (thorough) content types x {header only, +3 bytes} under TLS 1.2 plus 2x7 (quick) / 16x16 (thorough) "
